@@ -319,3 +319,32 @@ proof fn lemma_ws_step(line: int, col: int, r0: Seq<char>, k: int)
     reveal_with_fuel(u16len, 2);
     assert(seq![r0[k]].drop_last() =~= Seq::<char>::empty());
 }
+proof fn lemma_boff_prefix(a: Seq<char>, b: Seq<char>, i: int)
+    requires 0 <= i <= a.len(), i <= b.len(), a.take(i) == b.take(i),
+    ensures boff(a, i) == boff(b, i),
+    decreases i,
+{
+    if i > 0 {
+        assert(a.take(i - 1) =~= a.take(i).take(i - 1));
+        assert(b.take(i - 1) =~= b.take(i).take(i - 1));
+        assert(a[i - 1] == a.take(i)[i - 1]);
+        assert(b[i - 1] == b.take(i)[i - 1]);
+        lemma_boff_prefix(a, b, i - 1);
+    }
+}
+/// a string that is a prefix of the remaining text ends on a character boundary of it, at its own byte length
+proof fn lemma_prefix_boundary(s: Seq<char>, r: Seq<char>)
+    requires s.is_prefix_of(r),
+    ensures boff(r, s.len() as int) == boff(s, s.len() as int), is_boundary(r, boff(s, s.len() as int)), s.len() <= r.len(), r.take(s.len() as int) == s,
+{
+    assert(r.take(s.len() as int) =~= s) by { assert(s =~= r.subrange(0, s.len() as int)); }
+    assert(s.take(s.len() as int) =~= s);
+    lemma_boff_prefix(r, s, s.len() as int);
+}
+impl<'s> ParseState<'s> {
+    /// the text in front of the cursor after the automatic whitespace skipping
+    spec fn auto_rest(&self) -> Seq<char> { self.rest().skip(self.auto_len()) }
+}
+spec fn none_follows<const N: usize>(excepts: [&str; N], t: Seq<char>) -> bool {
+    forall|k: int| 0 <= k < N ==> !(#[trigger] excepts[k])@.is_prefix_of(t)
+}
